@@ -105,6 +105,16 @@ def catalog():
                         [["sleep", 0.5], ["build", "ex", {"base": {"kind": "sync"}, "layers": [layer(kind)]}]],
                         [["sleep", 2.0]] + ends("exit", False)],
             "settle": 1, "final": [["threads"]]}}
+    # an OLDER executor is dropped (its worker exits, its event is collected and the handler's list updated) while the exit hook
+    # is walking that list: the hook must still reach every later executor's idle worker
+    for kind in ("retry-fast", "timeout", "throttle"):
+        out["exit/older-executor-dropped-while-hook-runs/" + kind] = {"action": "exit", "focus_hook": True, "prog": {
+            "setup": [["build", "old", {"base": {"kind": "sync"}, "layers": [layer(kind)]}],
+                      ["build", "ex", {"base": {"kind": "sync"}, "layers": [layer(kind)]}],
+                      ["build", "ex2", {"base": {"kind": "sync"}, "layers": [layer(kind)]}], ["sleep", 0.1]],
+            "threads": [[["sleep", 0.5]] + ends("exit", False),
+                        [["sleep", 0.5], ["drop_ex", "old"], ["gc"]]],
+            "settle": 1, "final": [["threads"]]}}
     # cancel() of a polled future at the very instant its delegate completes (registration for polling vs cancel)
     out["refs/poll-cancel-at-registration"] = {"action": "forget", "prog": {
         "setup": [["build", "ex", {"base": {"kind": "manual"}, "layers": [dict(layer("poll"), per_sub={"f0.fn": {"after": None}, "f1.fn": {"after": None}}, cancel=[["ret", True]])]}],
@@ -165,6 +175,10 @@ def evaluate(case):
     h = world.History(s, w)
     ops = h.oplist()
     action = case.get("action")
+    hook = [o for o in ops if o["op"][0] == "exit_hook" and o["ret_seq"]]
+    if hook:
+        # scheduling points of this run between which the exit hook was at work (for the focused double sweep)
+        info["hook_steps"] = (s.ev_steps[hook[0]["call_seq"] - 1], s.ev_steps[hook[0]["ret_seq"] - 1])
     # references
     forgotten = [o["op"][1] for o in ops if o["op"][0] == "forget" and o["result"] == ["ok", True]]  # done when forgotten
     for o in ops:
@@ -321,7 +335,8 @@ def run_shard(spec, ctx):
         cat = catalog()
         for name in spec["entries"]:
             ent = cat[name]
-            progs.sweep(ctx, ent["prog"], name, evaluate, account, double=spec.get("double"), extra={"entry": name, "action": ent["action"], "max_vtime": 400})
+            progs.sweep(ctx, ent["prog"], name, evaluate, account, double=spec.get("double"), extra={"entry": name, "action": ent["action"], "max_vtime": 400},
+                        double_in="hook_steps" if ent.get("focus_hook") else None)
     else:
         progs.random_search(ctx, spec, case_strategy(), evaluate, account)
 
